@@ -15,8 +15,9 @@ def short(txt, n):
 
 def main():
     rows = []
-    for name in sorted(os.listdir(os.path.join(ROOT, "seeded"))):
-        if not re.match(r"R[2-9]-", name):
+    for name in sorted(os.listdir(os.path.join(ROOT, "seeded")),
+                       key=lambda n: (int(re.match(r"R(\d+)", n).group(1)) if re.match(r"R(\d+)", n) else 0, n)):
+        if not re.match(r"R([2-9]|1[0-9])-", name):
             continue
         mp = os.path.join(ROOT, "seeded", name, "meta.json")
         if not os.path.exists(mp):
